@@ -2206,6 +2206,18 @@ def swap_order_rules(ck, pfacts, seen_fail):
                     sib = q.get("s", [])
                     idx = next((i_ for i_, y in enumerate(sib) if y is child), None)
                     pq = par.get(id(q))
+                    # behind a guard `if(<inv-parameter test>) { ...; return; }`: the rest of the block runs in the opposite context
+                    for y in (reversed(sib[:idx]) if idx is not None else []):
+                        if y.get("k") == "If" and y.get("else") is None and any(z.get("k") == "Return" for z in walk(y.get("then") or {})):
+                            c = L.unwrap(y["c"])
+                            neg = False
+                            while c.get("k") == "Un" and c.get("op") == "!":
+                                c = L.unwrap(c["e"])
+                                neg = not neg
+                            if c.get("k") == "Ref" and c.get("dk") == "param" and c.get("n", "").lower().startswith("inv"):
+                                inv_then = not neg
+                                ctx, why = ("forward" if inv_then else "inverse"), "behind the early return for %s == %s" % (c["n"], "true" if inv_then else "false")
+                                break
                     if idx is not None and pq is not None and pq.get("k") == "Switch":
                         for y in reversed(sib[:idx]):
                             if y.get("k") == "Case" and y.get("v") is not None:
